@@ -1522,6 +1522,38 @@ example (hi : Spec.HasInteriorSample (parts (.polygon ⟨[⟨0, 0⟩, ⟨4, 0⟩
   relateImpl_disjoint_eq_spec_dom_partial _ (by decide +kernel) (by decide +kernel) (by decide +kernel)
     (dimsSpec_polygon_partial _ (by decide +kernel) hi) (dimsSpec_triangle _ _ _ (by norm_num [cross]))
 
+/-- [T] … **on both paths of `compute_intersection_matrix`** (envelope of `B` containing `p` or not): the rows Interior and
+Boundary of `relate(Point p, B)` are the specification's. On the shortcut path this is
+`relateImpl_disjoint_eq_spec_dom_partial`, which needs `HasDimensions = specification` for `B` (`DimsSpec`: proved above for
+Point, MultiPoint, Line, Rect, Triangle; an interior face sample for polygons). Same open cases as
+`relateImpl_point_rows_eq_spec_dom_partial`. -/
+theorem relateImpl_point_rows_eq_spec_both_paths_partial (p : Pt) (b : Geom) (hd : inDomain b = true)
+    (ht : nodeTypeOk b = true) (db : Spec.DimsSpec b) {m : IM} (h : relateImpl? (.point p) b = some m)
+    (X Y : Pos) (hX : X ≠ .outside) : m.get X Y = (relateSpec (.point p) b).get X Y := by
+  cases henv : envelopesMeet (.point p) b with
+  | true =>
+    have hg : relateGraph Arith.exact (.point p) b = some m := by
+      unfold relateImpl? relateImplWith at h
+      rw [henv, if_pos rfl] at h
+      exact h
+    exact relateImpl_point_rows_eq_spec_dom_partial p b hd ht hg X Y hX
+  | false =>
+    have := relateImpl_disjoint_eq_spec_dom_partial Arith.exact (a := .point p) (b := b) rfl hd henv (dimsSpec_point p) db
+    unfold relateImpl? at h
+    rw [this] at h
+    rw [← Option.some.inj h]
+
+/-- a point far from a triangle (shortcut path) and on its hypotenuse (graph path) -/
+example : ∀ m, relateImpl? (.point ⟨9, 9⟩) (.triangle ⟨0, 0⟩ ⟨4, 0⟩ ⟨0, 4⟩) = some m →
+    m.get .inside .outside = (relateSpec (.point ⟨9, 9⟩) (.triangle ⟨0, 0⟩ ⟨4, 0⟩ ⟨0, 4⟩)).get .inside .outside :=
+  fun m h => relateImpl_point_rows_eq_spec_both_paths_partial _ _ (by decide +kernel) rfl
+    (dimsSpec_triangle _ _ _ (by norm_num [cross])) h _ _ (by decide)
+
+example : ∀ m, relateImpl? (.point ⟨2, 2⟩) (.triangle ⟨0, 0⟩ ⟨4, 0⟩ ⟨0, 4⟩) = some m →
+    m.get .inside .onBoundary = (relateSpec (.point ⟨2, 2⟩) (.triangle ⟨0, 0⟩ ⟨4, 0⟩ ⟨0, 4⟩)).get .inside .onBoundary :=
+  fun m h => relateImpl_point_rows_eq_spec_both_paths_partial _ _ (by decide +kernel) rfl
+    (dimsSpec_triangle _ _ _ (by norm_num [cross])) h _ _ (by decide)
+
 end Impl2
 
 end Geo.Proofs.C01
